@@ -10,6 +10,7 @@
   themselves are covered by C14 (`C14_cg_exit`, `C14_woodbury_matrix`, `C14_woodbury_conv`).
 -/
 import Scico.Proofs.LinSolveADMM
+import Scico.Proofs.LinSolveADMM2
 import Mathlib.Tactic.NormNum
 
 namespace Scico.Props.C10
@@ -39,7 +40,55 @@ example : ∃ (A AH W : ℝ →ₗ[ℝ] ℝ), (∀ x y, inner ℝ (A x) y = inne
   ⟨LinearMap.id, LinearMap.id, LinearMap.id, fun _ _ => rfl, fun _ _ => rfl, fun u => by
     simp [inner]; exact mul_self_nonneg u⟩
 
+/-- **All exact solvers return the same `x`.**  If some `C_{i₀}` is injective with `ρ_{i₀} > 0` (an `Identity`, a
+    `Diagonal` without zero, a tall full-rank matrix), `W ⪰ 0`, `α ≥ 0`, `ρ ≥ 0`, the normal equations have at most one
+    solution: any two `x` satisfying them (from cg, the factorisation, the DFT division, scipy) coincide. -/
+theorem C10_solvers_agree (A : V →ₗ[𝕜] Y) (AH : Y →ₗ[𝕜] V) (hA : ∀ x y, inner 𝕜 (A x) y = inner 𝕜 x (AH y))
+    (W : Y →ₗ[𝕜] Y) (hWp : ∀ u, 0 ≤ re (inner 𝕜 u (W u)))
+    (C : ∀ i, V →ₗ[𝕜] U i) (CH : ∀ i, U i →ₗ[𝕜] V) (hC : ∀ i x y, inner 𝕜 (C i x) y = inner 𝕜 x (CH i y))
+    (α : ℝ) (hα : 0 ≤ α) (ρ : ι → ℝ) (hρ : ∀ i, 0 ≤ ρ i) (i0 : ι) (hρ0 : 0 < ρ i0) (hinj : ∀ h, C i0 h = 0 → h = 0)
+    (rhs : V) (x1 x2 : V)
+    (h1 : ((2 * α : ℝ) : 𝕜) • AH (W (A x1)) + ∑ i, ((ρ i : ℝ) : 𝕜) • CH i (C i x1) = rhs)
+    (h2 : ((2 * α : ℝ) : 𝕜) • AH (W (A x2)) + ∑ i, ((ρ i : ℝ) : 𝕜) • CH i (C i x2) = rhs) : x1 = x2 :=
+  normal_eq_unique A AH hA W C CH hC α ρ
+    (fun h hh => xstepQuad_pos_of_injective A W hWp C α hα ρ hρ i0 hρ0 hinj h hh) rhs x1 x2 h1 h2
+
+-- non-vacuity: the identity on ℝ is injective
+example : ∀ h : ℝ, (LinearMap.id : ℝ →ₗ[ℝ] ℝ) h = 0 → h = 0 := fun _ h => h
+
 end Argmin
+
+section Generic
+variable {𝕜 V Y U : Type} [RCLike 𝕜] [NormedAddCommGroup V] [InnerProductSpace 𝕜 V]
+  [NormedAddCommGroup Y] [InnerProductSpace 𝕜 Y] [NormedAddCommGroup U] [InnerProductSpace 𝕜 U] {n : Nat}
+
+/-- **`GenericSubproblemSolver`**: the function it hands to `scipy.optimize.minimize`
+    (`out = Σ 0.5·ρ_i·Σ|z_i − u_i − C_i x|²;  out += f(x)`, model `genericObj`) is, for `f = α‖A· − y‖²_W`, the x-step
+    objective; hence a point is an exact minimiser of what scipy receives iff it satisfies the documented normal equations. -/
+theorem C10_generic_objective (A : V →ₗ[𝕜] Y) (AH : Y →ₗ[𝕜] V) (hA : ∀ x y, inner 𝕜 (A x) y = inner 𝕜 x (AH y))
+    (W : Y →ₗ[𝕜] Y) (hWs : ∀ u v, inner 𝕜 (W u) v = inner 𝕜 u (W v)) (hWp : ∀ u, 0 ≤ re (inner 𝕜 u (W u)))
+    (C : Fin n → V →ₗ[𝕜] U) (CH : Fin n → U →ₗ[𝕜] V) (hC : ∀ i x y, inner 𝕜 (C i x) y = inner 𝕜 x (CH i y))
+    (α : ℝ) (hα : 0 ≤ α) (ρ : Fin n → ℝ) (hρ : ∀ i, 0 ≤ ρ i) (y : Y) (z u : Fin n → U) (x : V) :
+    let obj := genericObj (fun w : U => ‖w‖ ^ 2) (some fun x => α * re (inner 𝕜 (A x - y) (W (A x - y))))
+        (List.ofFn fun i => (ρ i, (⇑(C i) : V → U), z i, u i))
+    obj x = xstepObj (U := fun _ : Fin n => U) A W C α ρ y (fun i => z i - u i) x ∧
+    ((∀ x', obj x ≤ obj x') ↔
+      ((2 * α : ℝ) : 𝕜) • AH (W (A x)) + ∑ i, ((ρ i : ℝ) : 𝕜) • CH i (C i x)
+        = ((2 * α : ℝ) : 𝕜) • AH (W y) + ∑ i, ((ρ i : ℝ) : 𝕜) • CH i (z i - u i)) := by
+  intro obj
+  have hobj : ∀ x, obj x = xstepObj (U := fun _ : Fin n => U) A W C α ρ y (fun i => z i - u i) x :=
+    fun x => genericObj_eq_xstepObj A W C α ρ y z u x
+  refine ⟨hobj x, ?_⟩
+  rw [normal_eq_iff_argmin (U := fun _ : Fin n => U) A AH hA W hWs hWp C CH hC α hα ρ hρ y (fun i => z i - u i) x]
+  simp only [hobj]
+
+/-- **`accuracy` of the block-circulant solvers**: they report `rel_res` of the system divided by `2α` (resp. `2ωρ₁`);
+    `rel_res` is invariant under a common non-zero scaling, so this is the relative residual of the unscaled system too. -/
+theorem C10_accuracy_scale_invariant {E : Type} [NormedAddCommGroup E] [NormedSpace 𝕜 E] (c : 𝕜) (hc : c ≠ 0) (ax b : E) :
+    relRes (fun v : E => ‖v‖) (c • ax) (c • b) = relRes (fun v : E => ‖v‖) ax b :=
+  relRes_smul c hc ax b
+
+end Generic
 
 section Assembly
 variable {S M U Y' : Type} [Field S] [AddCommGroup M] [Module S M] [AddCommGroup U]
